@@ -40,7 +40,7 @@ ASSUMPTIONS = [
     "the opcode is compared with the attached command set's own entry (its T10-correctness is C14, not claimed)",
     "whether decoded *values* are right is C04; here cmd.result must equal the class's own unmarshall_datain of the final buffer and differ from that of the untouched buffer",
 ]
-REQUIRED_PROBES = ["plain", "sgio", "iscsi", "decode_after_execute", "all_optionals", "no_optionals", "reattached", "history_call"]
+REQUIRED_PROBES = ["plain", "sgio", "iscsi", "decode_after_execute", "all_optionals", "no_optionals", "reattached", "history_call", "faulted_call"]
 
 SET_TYPE = {"spc": 3, "sbc": 0, "ssc": 1, "smc": 8, "mmc": 5}
 
@@ -271,9 +271,15 @@ def gen_args(rng, method, subset=None):
 def gen_one(rng, method=None, setname=None):
     method = method or rng.choice(METHODS)
     pos, kw = gen_args(rng, method)
-    return {"cfg": {"method": method, "set": setname or rng.choice(sets_of(method)), "device": rng.choice(["plain", "plain", "sgio", "iscsi"]),
-                    "blocksize": rng.choice([512, 512, 1, 4096]), "nonce": rng.randrange(1 << 32)},
-            "pos": pos, "kw": kw, "reattach": rng.random() < 0.6}
+    op = {"cfg": {"method": method, "set": setname or rng.choice(sets_of(method)), "device": rng.choice(["plain", "plain", "sgio", "iscsi"]),
+                  "blocksize": rng.choice([512, 512, 1, 4096]), "nonce": rng.randrange(1 << 32)},
+          "pos": pos, "kw": kw, "reattach": rng.random() < 0.6}
+    if op["cfg"]["device"] != "plain" and rng.random() < 0.2:
+        # the device fails this command: it must still have been handed over exactly once
+        op["fault"] = rng.choice([{"kind": "status", "byte": 2, "sense": "70000600000000000a00000000290000000000"},
+                                  {"kind": "status", "byte": 8}, {"kind": "status", "byte": 0x18},
+                                  {"kind": "sense_payload", "sense": "", "no_sense": True}, {"kind": "ioctl_error", "errno": 5}])
+    return op
 
 
 def generate(rng, idx, tier):
@@ -570,6 +576,10 @@ def _one_call(cfg, op, ctx):
 
     lu.script = script
     del handed[:]
+    WORLD.armed.clear()
+    if op.get("fault") and device != "plain":
+        WORLD.arm(op["fault"])
+        WORLD.probe("faulted_call")
     mark = len(WORLD.deliveries)
     n_ev = len(WORLD.events)
     kind, val = worlds.outcome_of(lambda: getattr(scsi, method)(*args, **kw))
@@ -585,6 +595,13 @@ def _one_call(cfg, op, ctx):
     def done():
         return V, summary, (kind == "ok" and len(dl) == 1)
 
+    if op.get("fault") and device != "plain":
+        WORLD.armed.clear()
+        if len(dl) != 1 or len(handed) != 1:
+            V.append(dict(oracle="C13.exactly-once", where=where, detail="faulted/count=%d/%d" % (len(handed), len(dl)),
+                          expected="the command handed to the failing device exactly once", actual="device.execute %d time(s), %d command(s) at the binding; call %s" % (
+                              len(handed), len(dl), "returned" if kind == "ok" else "raised %s" % type(val).__name__)))
+        return V, summary, False
     # 1. exactly one command at the seam
     if len(dl) != 1:
         V.append(dict(oracle="C13.exactly-once", where=where, detail="count=%d%s" % (len(dl), ("/" + type(val).__name__) if kind == "exc" else ""),
